@@ -444,6 +444,12 @@ class AttributeCollection(MutableMapping[int, Attribute]):
             self.add(TreatAsWithdraw(aid))
             return b''
 
+        # RFC 7606 section 4: an attribute whose length runs past the end of the attribute block is
+        # treat-as-withdraw; slicing would silently hand the value decoder a shorter attribute
+        if length > len(data) - offset:
+            self.add(TreatAsWithdraw(aid))
+            return b''
+
         data = data[offset:]
         left = data[length:]
         attribute = data[:length]
